@@ -16,6 +16,10 @@ CHECKS = {
             'Bounded symbolic verification over configurations: the 12 documented options are solver variables read through concretising forks, the real compute_emissions runs for every feasible option combination on symbolic data; every path must return (then switched-off species are proved absent/zero in trajectory and LTO parts) or raise a refusal naming the offending option value; any other exception is a counterexample configuration, replayed through the real Config.load + compute_emissions.',
             'same engine and stubs as C01; classification of an exception as a named refusal is by message text',
             'proxy symbolic execution with symbolic configuration + z3; exceptions as path outcomes', 'DESIGN.md#c11'),
+    'C17': ('model_checking',
+            'Inductive step decided by z3: from a clean builder the real Builder.fly/_iterate_mass/__getattr__/__setattr__ run symbolically with a stub context whose constructor, starting-mass calculation and each mass iteration may raise any documented rejection (symbolic failure point) or succeed with symbolic residuals; obligations per path: builder instance state is exactly the pre-state (so every flight of any history starts from the same state), the exception leaving fly is the injected one, a returned trajectory is the last flown with |residual| < tolerance and carries that iteration\'s masses, otherwise non-convergence is reported. Concrete flight sequences on the real LegacyBuilder are compared bitwise with fresh builders as validation.',
+            'context class and phase loop are stubs (their documented rejections are the failure alphabet); state outside the builder instance is not modelled; bit-identity is validated concretely, not decided by the solver',
+            'proxy symbolic execution (inductive step with symbolic fault points) + z3', 'DESIGN.md#c17'),
     'C20': ('model_checking',
             'Bounded model checking: per-thread instruction lists are generated on every run from the AST of TrajectoryStore.__init__/close (statements touching the owner record are encoded exactly; everything else is an abstract step that may raise), two threads are interleaved at source-line granularity in a z3 transition system unrolled to the total instruction count, and "both threads admitted" must be unsat for the race and for call sequences (construct/close/construct, failed constructor calls). Satisfying schedules are enforced on the real class with real threads by a sys.settrace line scheduler; reachability twins are replayed the same way on every run to validate the encoding.',
             '2 threads; A up to 2 (thorough 3) constructor calls, B 1 (thorough 2); line-level atomicity as the property states (bytecode-level pre-emption inside a line is outside); AST shapes outside the supported set give exit 2',
